@@ -65,8 +65,8 @@ def cmp_state(new, P, R, other, what):
     if dr.max() > 1e-9:
         i = int(np.argmax(dr.reshape(len(R), -1).max(axis=1)))
         return {"what": what + ": orientation", "row": i, "max_entry_error": float(dr.max()), "now": new["R"][i], "expected": R[i]}
-    if not np.array_equal(new["other"], other):
-        i, k = np.argwhere(new["other"] != other)[0]
+    if not np.array_equal(new["other"], other, equal_nan=True):
+        i, k = np.argwhere(~((new["other"] == other) | (np.isnan(new["other"]) & np.isnan(other))))[0]
         return {"what": what + ": untouched field changed", "row": int(i), "field": OTHER[int(k)], "now": float(new["other"][i, k]), "expected": float(other[i, k])}
     return None
 
